@@ -297,7 +297,7 @@ func (w *Worker) apply(st *Stim) {
 		var b []byte
 		for _, r := range st.Reqs {
 			c.NSent++
-			w.Log.Add(Event{Ev: "send", C: c.Name, I: c.NSent, K: r.K, Slots: r.Slots})
+			w.Log.Add(Event{Ev: "send", C: c.Name, I: c.NSent, K: r.K, Slots: r.Slots, Dups: r.Dups})
 			if st.Op == "send" {
 				b = append(b, w.Cl.Concrete(c.Name, c.NSent, r)...)
 			}
@@ -306,6 +306,22 @@ func (w *Worker) apply(st *Stim) {
 			b, _ = hex.DecodeString(st.Hex)
 			w.Log.Add(Event{Ev: "rawsend", C: c.Name, Raw: st.Hex})
 		}
+		// a write cut into chunks: each chunk but the last is read by the proxy in an iteration of its own
+		prev := 0
+		for _, cut := range st.Cuts {
+			if cut <= prev || cut >= len(b) {
+				continue
+			}
+			if err := c.Write(b[prev:cut]); err != nil {
+				w.Log.Add(Event{Ev: "sendfail", C: c.Name, Txt: err.Error()})
+			}
+			prev = cut
+			w.flushOut()
+			if !w.iterate(200*time.Microsecond) && !w.Dead {
+				w.Log.Add(Event{Ev: "noiter"})
+			}
+		}
+		b = b[prev:]
 		if err := c.Write(b); err != nil {
 			w.Log.Add(Event{Ev: "sendfail", C: c.Name, Txt: err.Error()})
 		}
@@ -407,7 +423,7 @@ func (w *Worker) apply(st *Stim) {
 // RunScenario replays one scenario in step mode and leaves the proxy clean for the next one.
 func (w *Worker) RunScenario(sc *Scenario) {
 	w.Log.Tid++
-	w.Log.Add(Event{Ev: "begin", Txt: sc.Id})
+	w.Log.Add(Event{Ev: "begin", Txt: sc.Id, K: sc.Role})
 	// open every client the scenario mentions and let the proxy accept them
 	seenC := map[string]bool{}
 	for _, st := range sc.Steps {
